@@ -251,14 +251,14 @@ def run_config(config: str, rows):
 
 
 TIE_FILES = ("prims/FastPathGen.v", "prims/FastPathGenEq.v", "prims/LockGen.v", "prims/LockGenEq.v", "prims/SemGen.v",
-             "prims/SemGenEq.v", "prims/LimiterGen.v", "prims/LimiterGenEq.v")
+             "prims/SemGenEq.v", "prims/LimiterGen.v", "prims/LimiterGenEq.v", "prims/CondGen.v", "prims/CondGenEq.v")
 
 
 def check(tier: str) -> int:
     rep = core.Report("C08", tier)
     rep.assumptions = core.TRUSTED_BASE_COMMON + [
         "the shape table prims/FastPath.v: 13 rows are regenerated from /repo's source on every run by the fail-closed translator tools/translate_fastpath.py and proved equal to the table (FastPathGenEq.v); all rows are additionally validated against the real operations on stock asyncio, eager task factory and uvloop",
-        "rows 5-7 (Lock / Semaphore / CapacityLimiter acquire) are ALSO proved on the regenerated code: the entry segments that tools/translate_lock.py / translate_prims.py regenerate on this run, interpreted (LockImp.exec / PrimImp.exec) with the caller's scope effectively cancelled at entry, end at the cancellation check with nothing changed (C08_tie_lock/sem/lim_cancelled_entry_noeffect; for the limiter for every state and borrower, the check precedes both RuntimeError tests; for Lock/Semaphore on the uncontended path, the contended path has no check and behaves as the live call); the interpreters treat an effect before the check as stuck. Trusted there: the translators' mapping and the reading of a fresh checkpoint_if_cancelled() (raises when the scope is effectively cancelled: C08_ckif_suspends_iff_effectively_cancelled, C03_ckif_spin_terminates on the S machine; no-op otherwise)",
+        "rows 5-7 (Lock / Semaphore / CapacityLimiter acquire) are ALSO proved on the regenerated code: the entry segments that tools/translate_lock.py / translate_prims.py regenerate on this run, interpreted (LockImp.exec / PrimImp.exec) with the caller's scope effectively cancelled at entry, end at the cancellation check with nothing changed (C08_tie_lock/sem/lim_cancelled_entry_noeffect, and C08_tie_cond_wait_cancelled_entry_noeffect for row 9; for the limiter for every state and borrower, the check precedes both RuntimeError tests; for Lock/Semaphore on the uncontended path, the contended path has no check and behaves as the live call); the interpreters treat an effect before the check as stuck. Trusted there: the translators' mapping and the reading of a fresh checkpoint_if_cancelled() (raises when the scope is effectively cancelled: C08_ckif_suspends_iff_effectively_cancelled, C03_ckif_spin_terminates on the S machine; no-op otherwise)",
         "functools.reduce: rows 18 (non-yielding reducer over a non-empty input) and 22 (zero invocations); before the F22 fix reduce delegated its checkpoint to the awaited callback",
         "states in which the operation must really wait are governed by C03",
     ]
@@ -267,7 +267,7 @@ def check(tier: str) -> int:
     # and rebuild the cone, all under the `tiegen` lock (harness/tiegen.py); a refusal leaves a *Gen.v that does not compile
     import tiegen
     t_rc, t_out, proofs_ok = tiegen.translate_and_prove(
-        rep, "props/C08.v", ["translate_fastpath.py", "translate_lock.py", "translate_prims.py"])
+        rep, "props/C08.v", ["translate_fastpath.py", "translate_lock.py", "translate_prims.py", "translate_cond.py"])
     tie_T, tie_T_broken = tiegen.describe(rep, t_rc, t_out, proofs_ok, TIE_FILES)
     tie_T.pop("segments", None)
     rep.coverage["translator"] = "; ".join(tie_T["translator_output"])[-900:]
@@ -340,7 +340,14 @@ def check(tier: str) -> int:
     # itertools clause (props/C08_itertools.v): tee with copy ops against the tee LTS, per-consumer checkpoint monitor,
     # first __anext__ in a cancelled scope, every iterator function on tiny inputs - implemented in harness/c19.py
     import c19
-    it_part = c19.c08_itertools_part(tier)
+    try:
+        it_part = c19.c08_itertools_part(tier)
+    except BaseException as e:  # noqa: BLE001  (the implementation misbehaved badly enough to break the scenario runner)
+        import traceback
+        tb = traceback.format_exc()
+        it_part = {"hits": [(f"itertools clause: the scenario runner was aborted by {type(e).__name__}: {e} raised from the code under test",
+                             {"kind": "monitor", "what": "exception escaping a cancelled-scope / tee scenario", "traceback_tail": tb[-1500:]})],
+                   "coverage": {"aborted": True}, "tie_broken": []}
     for msg, replay in it_part["hits"][:3]:
         rep.violation(msg, replay)
     rep.coverage["itertools_clause"] = it_part["coverage"]
